@@ -123,9 +123,15 @@ func (fr *Frame) callFunc(v ssa.Value, f *ssa.Function, args []Val, bind []Val, 
 		fr.applyContract(v, f, con, args, in)
 		return
 	}
-	if f.Blocks == nil {
-		fr.externalResult(v, callCommon(in), in, "call to external function without contract: "+shortName(f.String()))
-		return
+	if f.Blocks == nil || f.Pkg == nil || !strings.HasPrefix(f.Pkg.Pkg.Path(), modPath) {
+		if f.Pkg == nil && f.Blocks != nil && f.Origin() != nil && f.Origin().Pkg != nil && strings.HasPrefix(f.Origin().Pkg.Pkg.Path(), modPath) {
+			// instantiated generic of the module: fall through to inlining
+		} else if f.Pkg == nil && f.Blocks != nil && f.Parent() != nil && f.Parent().Pkg != nil && strings.HasPrefix(f.Parent().Pkg.Pkg.Path(), modPath) {
+			// closure of a module function
+		} else {
+			fr.externalResult(v, callCommon(in), in, "call to external function without contract: "+shortName(f.String()))
+			return
+		}
 	}
 	if ex.depth >= maxInlineDepth || ex.onStack(f) {
 		fr.externalResult(v, callCommon(in), in, "recursive or too deep inlining of "+shortName(f.String()))
